@@ -197,9 +197,18 @@ func (e *Encoder) get(st *State, class string, s *Sort) *Term {
 	if t, ok := st.m[class]; ok {
 		return t
 	}
-	t := e.c.Sym(fmt.Sprintf("H%d.%s", st.epoch, class), s)
+	ep := st.epoch
+	if immutableClass(class) {
+		ep = 0 // never havocked: one symbol for the whole execution
+	}
+	t := e.c.Sym(fmt.Sprintf("H%d.%s", ep, class), s)
 	st.m[class] = t
 	return t
+}
+
+// immutableClass: values boxed in interfaces and string contents never change.
+func immutableClass(class string) bool {
+	return strings.HasPrefix(class, "box:") || class == "mem:str"
 }
 
 func (e *Encoder) set(st *State, class string, t *Term) {
@@ -287,6 +296,16 @@ func (e *Encoder) cellAddr(ref *Term, t types.Type) *Addr {
 	a := &Addr{Typ: t, Ref: ref}
 	if !isAggregate(t) {
 		a.Prefix = "cell:" + typeKey(t)
+		a.Idx = ref
+	}
+	return a
+}
+
+// boxAddr: the immutable cell holding a non-pointer value boxed in an interface.
+func (e *Encoder) boxAddr(ref *Term, t types.Type) *Addr {
+	a := &Addr{Typ: t, Ref: ref}
+	if !isAggregate(t) {
+		a.Prefix = "box:" + typeKey(t)
 		a.Idx = ref
 	}
 	return a
